@@ -109,6 +109,77 @@ type Term struct {
 	Val  uint64 // constant value (bool: 0/1)
 	Name string // var name
 	P, Q int
+	mb   int // number of low bits that can be non-zero (BV only); computed at creation
+}
+
+// MaxBits returns n such that the value of t (unsigned) is < 2^n.
+func (t *Term) MaxBits() int { return t.mb }
+
+func bitsOf(v uint64) int { return bits.Len64(v) }
+
+func computeMB(t *Term) int {
+	if t.S.K != KBV {
+		return 0
+	}
+	w := t.S.W
+	clamp := func(n int) int {
+		if n > w {
+			return w
+		}
+		if n < 0 {
+			return 0
+		}
+		return n
+	}
+	switch t.Op {
+	case OpConst:
+		return bitsOf(t.Val)
+	case OpZext:
+		return t.Args[0].mb
+	case OpExtract:
+		if t.Q == 0 {
+			return clamp(t.Args[0].mb)
+		}
+		return clamp(t.Args[0].mb - t.Q)
+	case OpBvAnd:
+		a, b := t.Args[0].mb, t.Args[1].mb
+		if a < b {
+			return a
+		}
+		return b
+	case OpBvOr, OpBvXor:
+		a, b := t.Args[0].mb, t.Args[1].mb
+		if a > b {
+			return a
+		}
+		return b
+	case OpBvAdd:
+		a, b := t.Args[0].mb, t.Args[1].mb
+		if a < b {
+			a = b
+		}
+		return clamp(a + 1)
+	case OpBvShl:
+		if t.Args[1].IsConst() && t.Args[1].Val < 64 {
+			return clamp(t.Args[0].mb + int(t.Args[1].Val))
+		}
+	case OpBvLshr:
+		if t.Args[1].IsConst() && t.Args[1].Val < 64 {
+			return clamp(t.Args[0].mb - int(t.Args[1].Val))
+		}
+		return t.Args[0].mb
+	case OpBvUDiv, OpBvURem:
+		return t.Args[0].mb
+	case OpIte:
+		a, b := t.Args[1].mb, t.Args[2].mb
+		if a > b {
+			return a
+		}
+		return b
+	case OpBvMul:
+		return clamp(t.Args[0].mb + t.Args[1].mb)
+	}
+	return w
 }
 
 func (t *Term) IsConst() bool { return t.Op == OpConst }
@@ -135,6 +206,7 @@ func (s *Store) intern(t *Term) *Term {
 	}
 	t.ID = s.next
 	s.next++
+	t.mb = computeMB(t)
 	s.tab[k] = t
 	if t.Op == OpVar {
 		s.Vars = append(s.Vars, t)
@@ -225,6 +297,14 @@ func (s *Store) Eq(a, b *Term) *Term {
 	}
 	if a.IsConst() && b.IsConst() {
 		return s.BoolC(a.Val == b.Val)
+	}
+	if a.S.K == KBV {
+		if a.IsConst() && b.mb < 64 && a.Val >= uint64(1)<<uint(b.mb) {
+			return s.BoolC(false)
+		}
+		if b.IsConst() && a.mb < 64 && b.Val >= uint64(1)<<uint(a.mb) {
+			return s.BoolC(false)
+		}
 	}
 	if a.S.K == KBool {
 		if a.IsTrue() {
@@ -441,6 +521,27 @@ func (s *Store) cmp(op Op, a, b *Term) *Term {
 	}
 	if a == b {
 		return s.BoolC(op == OpBvUle || op == OpBvSle)
+	}
+	// bound-based folding: x < 2^mb(x)
+	if a.mb < w || b.mb < w {
+		signedOK := a.mb < w && b.mb < w // both non-negative as signed
+		if op == OpBvUlt || op == OpBvUle || signedOK {
+			if b.IsConst() && a.mb < 64 {
+				ub := uint64(1)<<uint(a.mb) - 1
+				if ub < b.Val || (ub == b.Val && (op == OpBvUle || op == OpBvSle)) {
+					return s.BoolC(true)
+				}
+			}
+			if a.IsConst() && b.mb < 64 {
+				ub := uint64(1)<<uint(b.mb) - 1
+				if a.Val > ub || (a.Val == ub && (op == OpBvUlt || op == OpBvSlt)) {
+					return s.BoolC(false)
+				}
+			}
+			if a.IsConst() && a.Val == 0 && (op == OpBvUle || op == OpBvSle) {
+				return s.BoolC(true)
+			}
+		}
 	}
 	return s.intern(&Term{Op: op, S: Bool, Args: []*Term{a, b}})
 }
